@@ -24,7 +24,7 @@ ASSUMPTIONS = [
     "dedispersion delays are taken from the library's own Header.get_dmdelays (C09 checks that table) and counted from the earliest channel, so tables of either sign are covered (negative DMs included)",
     "a DM whose maxdelay >= nsamps is outside the quantifier and skipped",
 ]
-REQUIRED_OUTCOMES = ["collapse/ok", "bandpass/ok", "read_chan/ok", "dedisperse/ok", "dedisperse/gulp_lt_2maxdelay", "dedisperse/negative_delays", "stats/ok", "stats_basic/ok", "gulp_identity/ok", "scale_lane/ok"]
+REQUIRED_OUTCOMES = ["collapse/ok", "bandpass/ok", "read_chan/ok", "dedisperse/ok", "dedisperse/gulp_lt_2maxdelay", "dedisperse/negative_delays", "stats/ok", "stats_basic/ok", "gulp_identity/ok", "scale_lane/ok", "stats/reader_reuse_ok"]
 
 EPS32 = float(np.finfo(np.float32).eps)
 SCALE = {"N": 70001, "C": 32, "lengths": [16384, 1, 30000, 23615, 1], "band": [1500.0, -10.0], "dms": [0.0, 100.0, 3000.0, -100.0],
@@ -121,7 +121,7 @@ def run_shard(shard: dict, ctx, res, only=None) -> None:
         n_eff = (N - s_eff) if ns is None else ns
         Y = X[s_eff : s_eff + n_eff].astype(np.float64)
         for api in apis:
-            if only is not None and (api != only[0] or [st, ns] != only[1]):
+            if only is not None and (only[0] == "reuse" or api != only[0] or [st, ns] != only[1]):
                 continue
             ref = _reference(api, Y, delays, n_eff)
             if ref is None:
@@ -162,6 +162,25 @@ def run_shard(shard: dict, ctx, res, only=None) -> None:
                                   f"gulp {first[0]} -> {first[1].tolist()}, gulp {g} -> {got.tolist()}")
                 else:
                     res.outcome("gulp_identity/ok")
+    # the same reader object asked for two ranges of the SAME length one after the other (and basic after full, full after basic): the answer must
+    # describe the second range - nothing may be remembered from the first call
+    if "scale" not in shard and start > 0:
+        for k in sorted({1, min(3, N - start), N - start}):
+            for first, second in (("stats", "stats"), ("stats_basic", "stats"), ("stats", "stats_basic"), ("stats_basic", "stats_basic")):
+                if only is not None and (only[0] != "reuse" or only[1] != [first, second, k]):
+                    continue
+                res.evaluations += 1
+                case = {"shard": shard, "inner": ["reuse", [first, second, k]]}
+                g = 2
+                if _call(fil, first, g, 0, k, res, case) is None:
+                    continue
+                got = _call(fil, second, g, start, k, res, case)
+                if got is None:
+                    continue
+                ref = _reference(second, X[start : start + k].astype(np.float64), delays, k)
+                if _compare(second, got, ref, k, res, case):
+                    res.outcome("stats/reader_reuse_ok")
+                    res.nontrivial += 1
     res.sample({"shard": shard, "inner": ["dedisperse:3.0", [start, None], 3]}, cap=1)
 
 
